@@ -1509,3 +1509,24 @@ Example c07_ugrid_writable_stripped_nonvacuous :
   c07_writable (uo_ds (c07_encode_ugrid c07_repaired c07_base_template c07_ex_edges)) = true
   /\ c07_writable (uo_ds (c07_encode_ugrid c07_faithful c07_base_template c07_ex_edges)) = false.
 Proof. split; vm_compute; reflexivity. Qed.
+
+(* ------------------------------------------------------------------------------------- *)
+(* a Cartesian-only grid (node_x/y/z, node_lon never materialised): the topology names
+   node_lon / node_lat although the dataset has neither, and the reader fails               *)
+
+Definition c07_ex_cartesian : c07_ds :=
+  [ {| cv_name := c07_s_node_x; cv_dims := [c07_s_n_node]; cv_attrs := []; cv_data := C07_DFloat [0; 1; 2; 3; 4] |};
+    {| cv_name := c07_s_node_y; cv_dims := [c07_s_n_node]; cv_attrs := []; cv_data := C07_DFloat [5; 6; 7; 8; 9] |};
+    {| cv_name := c07_s_node_z; cv_dims := [c07_s_n_node]; cv_attrs := []; cv_data := C07_DFloat [9; 8; 7; 6; 5] |};
+    {| cv_name := c07_s_fnc; cv_dims := [c07_s_n_face; c07_s_n_max_face_nodes]; cv_attrs := c07_ex_fnc_attrs;
+       cv_data := C07_DInt [[0; 1; 2; 3]; [2; 3; 4; FILL]] |} ].
+
+Theorem c07_ugrid_cartesian_only_refuted :
+  exists ds, c07_has ds c07_s_node_x = true /\ c07_has ds c07_s_node_lon = false /\
+    c07_closed (uo_ds (c07_encode_ugrid c07_faithful c07_base_template ds)) = false /\
+    c07_read_ugrid false (uo_ds (c07_encode_ugrid c07_faithful c07_base_template ds)) = None /\
+    (exists o, c07_encode_exodus c07_faithful ds = Some o).
+Proof.
+  exists c07_ex_cartesian. repeat split; try (vm_compute; reflexivity).
+  eexists. vm_compute. reflexivity.
+Qed.
